@@ -182,3 +182,59 @@ Definition minimizer := (R -> R) -> R * R * R -> option R.
 Definition minimizer_covariant (mini : minimizer) : Prop :=
   forall (f g : R -> R) (a b c s : R), 0 < s -> (forall x, g x = f (s * x)) ->
     mini g (a / s, b / s, c / s) = option_map (fun x => x / s) (mini f (a, b, c)).
+
+(* the minimiser returns a point of its bracket (used by plane_wave_peak_bracket) *)
+Definition minimizer_in_bracket (mini : minimizer) : Prop :=
+  forall (f : R -> R) (a b c x : R), mini f (a, b, c) = Some x -> Rmin a c <= x <= Rmax a c.
+
+(* ---------------------------------------------------------------- plane waves (1-d) *)
+(* x_m = A cos(2 pi q m / N + phi) + c  on a 1-d array of N cells *)
+Definition cosine_field (N q : nat) (A phi c : R) : field := fun n =>
+  match n with
+  | [m] => A * cos (2 * PI * INR q * INR m / INR N + phi) + c
+  | _ => 0
+  end.
+
+(* orthogonality of the DFT basis, as far as the peak method needs it: the orthonormal transform of a
+   resolved cosine (1 <= q, 4 q <= N) vanishes off the modes 0, q, N - q and has |X_q|^2 = |X_{N-q}|^2
+   = A^2 N / 4 *)
+Definition dft_cosine (dom : list nat -> Prop) (F : dft_oracle) : Prop :=
+  forall N q A phi c, dom [N] -> (1 <= q)%nat -> (4 * q <= N)%nat ->
+    (forall m, (m < N)%nat -> m <> 0%nat -> m <> q -> m <> (N - q)%nat ->
+       cabs2 (F true [N] (cosine_field N q A phi c) [m]) = 0) /\
+    cabs2 (F true [N] (cosine_field N q A phi c) [q]) = A ^ 2 * INR N / 4 /\
+    cabs2 (F true [N] (cosine_field N q A phi c) [(N - q)%nat]) = A ^ 2 * INR N / 4.
+
+(* ---------------------------------------------------------------- executable instance: shapes (2,), (4,), (2,2) *)
+Definition dft2 : dft_oracle := fun ortho shape x k =>
+  let c := if ortho then / sqrt 2 else 1 in
+  let x0 := x [0%nat] in let x1 := x [1%nat] in
+  match k with
+  | [0%nat] => (c * (x0 + x1), 0)
+  | [1%nat] => (c * (x0 - x1), 0)
+  | _ => (0, 0)
+  end.
+
+(* X_{k1 k2} = (1/2) sum x_{n1 n2} (-1)^(k1 n1 + k2 n2) *)
+Definition dft22 : dft_oracle := fun ortho shape x k =>
+  let c := if ortho then / 2 else 1 in
+  let a := x [0%nat; 0%nat] in let b := x [0%nat; 1%nat] in
+  let d := x [1%nat; 0%nat] in let e := x [1%nat; 1%nat] in
+  match k with
+  | [0%nat; 0%nat] => (c * (a + b + d + e), 0)
+  | [0%nat; 1%nat] => (c * (a - b + d - e), 0)
+  | [1%nat; 0%nat] => (c * (a + b - d - e), 0)
+  | [1%nat; 1%nat] => (c * (a - b - d + e), 0)
+  | _ => (0, 0)
+  end.
+
+Definition dft_small : dft_oracle := fun ortho shape x k =>
+  match shape with
+  | [2%nat] => dft2 ortho shape x k
+  | [4%nat] => dft4 ortho shape x k
+  | [2%nat; 2%nat] => dft22 ortho shape x k
+  | _ => (0, 0)
+  end.
+
+Definition dom_small (shape : list nat) : Prop :=
+  shape = [2%nat] \/ shape = [4%nat] \/ shape = [2%nat; 2%nat].
